@@ -4,7 +4,7 @@
 package standard
 
 //@ func (*Service).runSignBeaconAttestationChecks
-//@ requires metadata != nil && req != nil && req.Source != nil && req.Target != nil && state != nil && s != nil
+//@ requires metadata != nil && req != nil && req.Source != nil && req.Target != nil && state != nil && s != nil && cap(req.Domain) >= 4
 //@ modifies state.SourceEpoch, state.TargetEpoch
 //@ ensures [verdict] result == rules.APPROVED || result == rules.DENIED
 //@ ensures [sound] result == rules.APPROVED ==> attOK(old(state.SourceEpoch), old(state.TargetEpoch), req.Source.Epoch, req.Target.Epoch, prefix4(req.Domain))
@@ -58,7 +58,7 @@ package standard
 //@ ensures [ok] store_ok ==> result == nil
 
 //@ func (*Service).OnSignBeaconAttestation
-//@ requires s != nil && s.store != nil && metadata != nil && req != nil && req.Source != nil && req.Target != nil
+//@ requires s != nil && s.store != nil && metadata != nil && req != nil && req.Source != nil && req.Target != nil && cap(req.Domain) >= 4
 //@ modifies db
 //@ ensures [verdicts] result == rules.APPROVED || result == rules.DENIED || result == rules.FAILED
 //@ ensures [sound] result == rules.APPROVED ==> old(wmAttOk(bytes(metadata.PubKey))) && attOK(old(wmAttS(bytes(metadata.PubKey))), old(wmAttT(bytes(metadata.PubKey))), req.Source.Epoch, req.Target.Epoch, prefix4(req.Domain))
@@ -100,7 +100,7 @@ package standard
 //@ ensures [ok] store_ok ==> result == nil
 
 //@ func (*Service).OnSignBeaconProposal
-//@ requires s != nil && s.store != nil && metadata != nil && req != nil
+//@ requires s != nil && s.store != nil && metadata != nil && req != nil && cap(req.Domain) >= 4
 //@ modifies db
 //@ ensures [verdicts] result == rules.APPROVED || result == rules.DENIED || result == rules.FAILED
 //@ ensures [sound] result == rules.APPROVED ==> old(wmPropOk(bytes(metadata.PubKey))) && propOK(old(wmPropL(bytes(metadata.PubKey))), req.Slot, prefix4(req.Domain))
@@ -113,7 +113,7 @@ package standard
 // ---- generic signing ----
 
 //@ func (*Service).OnSign
-//@ requires s != nil && req != nil
+//@ requires s != nil && req != nil && cap(req.Domain) >= 4
 //@ ensures [verdicts] result == rules.APPROVED || result == rules.DENIED || result == rules.FAILED
 //@ ensures [noslashable] result == rules.APPROVED ==> prefix4(req.Domain) != ATT && prefix4(req.Domain) != PROP
 //@ ensures [exit] result == rules.APPROVED && prefix4(req.Domain) == EXIT ==> metadata.IP != "" && (exists j int :: 0 <= j && j < len(s.adminIPs) && s.adminIPs[j] == metadata.IP)
@@ -171,10 +171,11 @@ package standard
 //@ invariant [vals] forall j int :: 0 <= j && j < _n ==> decAttOk(bytes(values[j])) && decAttS(bytes(values[j])) == states[j].SourceEpoch && decAttT(bytes(values[j])) == states[j].TargetEpoch
 //@ hint [newkey] bytes(keys[_i]) == attKey(bytes(pubKeys[_i]))
 //@ loop #2
-//@ invariant true
+//@ invariant [range] 0 <= _n && _n <= len(states)
 
 //@ func (*Service).OnSignBeaconAttestations
 //@ requires s != nil && s.store != nil
+//@ requires [domaincap] forall i int :: 0 <= i && i < len(req) && req[i] != nil ==> cap(req[i].Domain) >= 4
 //@ requires [distinct] forall i int, j int :: 0 <= i && i < j && j < len(metadata) && metadata[i] != nil && metadata[j] != nil ==> bytes(metadata[i].PubKey) != bytes(metadata[j].PubKey)
 //@ modifies db
 //@ ensures [len] len(result) == len(req)
